@@ -349,3 +349,7 @@ Proof.
   destruct pkts as [|[off p] rest]; cbn [recv_loop]; cbv [dgram_loop_cond];
     destruct (N.ltb_spec T T); try lia; reflexivity.
 Qed.
+
+(* set_response_timeout writes every per-kind timeout field Transport::run reads *)
+Lemma config_setter_covers_run : set_rt_covers_run_reads = true /\ cfg_response_timeout_fields = 3.
+Proof. split; reflexivity. Qed.
